@@ -28,7 +28,7 @@ RULE = ("random histories of 3-40 events over 1-2 component groups, 1-3 regular 
         "distinct priorities; plus the two documented operating-point tables as fixed cases. distinct = canonical "
         "history JSON; non-trivial = >=1 request observed after both resolvers hold a target")
 REQUIRED_BUCKETS = ["bounds-only-step-with-request", "only-one-target-changed", "both-targets-nonzero",
-                    "expiry", "partial-failure-resend", "bounds-None", "doc-table", "request-on-bound"]
+                    "expiry", "partial-failure-resend", "late-partial-failure-resend", "bounds-None", "doc-table", "request-on-bound"]
 REQUIRED_COUNTERS = ["requests_checked", "reports_checked"]
 ASSUMPTIONS = ["stubbed battery pool; PowerDistributor replaced by the harness reading the requests channel"]
 
@@ -105,7 +105,10 @@ def gen(rng: Any, tier: str, i: int) -> Any:
         elif r < 0.8:
             events.append(prop_ev(g))
         elif r < 0.92:
-            events.append({"k": "result", "g": g, "type": rng.choice(["success", "partial", "partial", "error"])})
+            # "back": the result answers the request sent `back` requests ago (results can arrive late, after
+            # newer proposals or bounds have re-targeted the group)
+            events.append({"k": "result", "g": g, "type": rng.choice(["success", "partial", "partial", "error"]),
+                           "back": rng.choice([0, 0, 1, 2, 3])})
         else:
             events.append({"k": "advance", "dt": rng.choice([0.5, 5.0, 30.0, 59.0, 61.5, 130.0])})
     return {"n_groups": ng, "events": events}
@@ -168,6 +171,7 @@ async def _drive(case: dict[str, Any], out: dict[str, Any]) -> None:
 
         latest_bounds: dict[int, Any] = {}
         last_request: dict[int, Any] = {}
+        req_hist: dict[int, list[Any]] = {}
         steps = out["steps"]
         for idx, ev in enumerate(case["events"]):
             if ev["k"] == "bounds":
@@ -180,6 +184,11 @@ async def _drive(case: dict[str, Any], out: dict[str, Any]) -> None:
                 req = last_request.get(ev["g"])
                 if req is None:
                     continue
+                hist = req_hist.get(ev["g"], [])
+                back = min(ev.get("back", 0), len(hist) - 1)
+                if back > 0:
+                    req = hist[-1 - back]
+                    out.setdefault("late_results", []).append(idx)
                 z = Power.zero()
                 if ev["type"] == "success":
                     res: Any = _power_distributing.Success(request=req, succeeded_power=req.power,
@@ -220,6 +229,7 @@ async def _drive(case: dict[str, Any], out: dict[str, Any]) -> None:
             for r in reqs:
                 g = GROUPS.index(frozenset(r.component_ids))
                 last_request[g] = r
+                req_hist.setdefault(g, []).append(r)
             steps.append({"i": idx, "ev": ev, "state": state, "reports": reports,
                           "requests": [{"g": GROUPS.index(frozenset(r.component_ids)), "power": r.power.as_watts()}
                                        for r in reqs],
@@ -274,6 +284,8 @@ def check(case: dict[str, Any], rec: Any) -> None:
                 rec.bucket("bounds-only-step-with-request")
             if ev["k"] == "result":
                 rec.bucket("partial-failure-resend")
+                if st["i"] in out.get("late_results", []):
+                    rec.bucket("late-partial-failure-resend")
             if len(changed) == 1 and p_old["reg"] is not None and p_old["op"] is not None:
                 rec.bucket("only-one-target-changed")
             if abs(reg) > 1e-9 and abs(op) > 1e-9:
